@@ -341,6 +341,10 @@ func (cr *checkRun) writeEvidence(seed, nObl, discharged, nViol, nKF int, unledg
 		"integers":                 "SMT Int with the exact range of each Go type assumed for inputs and explicit two's-complement wrap-around on + - * conversions; spec arithmetic is mathematical",
 		"termination":              "proved only where a loop carries a decreases clause; otherwise partial correctness",
 	}
+	if len(cr.bounded) > 0 {
+		cov["bounded_standins"] = cr.bounded
+		cov["bounded_note"] = "functions outside the generator's reach, run on the real code over the stated finite input space; labelled bounded, not part of obligations/discharged"
+	}
 	ev := map[string]interface{}{
 		"property_id": cr.prop,
 		"tier":        cr.tier,
